@@ -3,8 +3,8 @@
 From Coq Require Import ZArith List Bool.
 From Coq Require String.
 Import ListNotations.
-Require Import EV.model.Cfg EV.model.Value EV.model.Frame EV.model.CodecSpec EV.model.Utf8 EV.model.Decimal EV.model.Ser EV.model.Unser.
-Require Import EV.proofs.CodecP3 EV.proofs.CodecP4 EV.proofs.CodecP7 EV.gen.Facts.
+Require Import EV.model.Cfg EV.model.Value EV.model.Frame EV.model.CodecSpec EV.model.Utf8 EV.model.Decimal EV.model.Ser EV.model.Unser EV.model.Stream.
+Require Import EV.proofs.CodecP3 EV.proofs.CodecP4 EV.proofs.CodecP7 EV.proofs.CodecP8 EV.gen.Facts.
 Open Scope Z_scope.
 
 (* The tables regenerated from the current source ARE dump format version 2 as written down in
@@ -15,7 +15,7 @@ Open Scope Z_scope.
 Theorem C12_facts_are_v2 :
   opcode_table = OPCODE_TABLE /\ loader_table = LOADER_TABLE /\ saver_table = SAVER_TABLE /\
   dump_version = VERSION /\ four_byte_int_max = INT_MAX /\ int_lo_checked = true /\
-  float_formats = FLOAT_FORMATS /\ ser_int_text_ok = true /\ load_py2string_latin1 = true /\
+  float_formats = FLOAT_FORMATS /\ ser_int_text_ok = true /\ load_py2string_latin1 = true /\ load_stream_incremental = true /\
   strconfig_defaults = ((false, false), (true, false)).
 Proof. repeat split; reflexivity. Qed.
 Print Assumptions C12_facts_are_v2.
@@ -69,3 +69,22 @@ Print Assumptions C12_version.
 Theorem C12_roundtrip_v2 : forall ma sc v, py3str_as_py2str sc = false -> 2147483647 <= ma -> wfb false v = true ->
   exists b, dumps true v = Ok b /\ loads_r ma sc b = Ok (v, []).
 Proof. intros ma sc v Hsc Hma W. exact (loads_dumps ma sc Hsc Hma v W). Qed.
+
+(* the STOP terminator delimits a record: data persisted with dump(stream, v) -- several records one after
+   the other, or a record followed by anything else -- loads back record by record with load(stream); each
+   load consumes exactly its record and leaves every later byte in the stream (tie: fact
+   load_stream_incremental + the stream layer of the harness comparing values and stream positions) *)
+Theorem C12_record_self_delimiting : forall ma sc v, py3str_as_py2str sc = false -> 2147483647 <= ma -> wfb false v = true ->
+  exists b, dumps true v = Ok b /\ forall rest, loads_r ma sc (b ++ rest) = Ok (v, rest).
+Proof. intros ma sc v Hsc Hma W. exact (loads_dumps_rest ma sc Hsc Hma v W). Qed.
+Print Assumptions C12_record_self_delimiting.
+
+Theorem C12_stream_of_records : forall ma sc vs, py3str_as_py2str sc = false -> 2147483647 <= ma -> forallb (wfb false) vs = true ->
+  exists bs, dump_stream true vs = Ok bs /\ forall trailer, load_stream ma sc (length vs) (bs ++ trailer) = Ok (vs, trailer).
+Proof. intros ma sc vs Hsc Hma W. exact (load_stream_dump_stream ma sc Hsc Hma vs W). Qed.
+Print Assumptions C12_stream_of_records.
+
+Example C12_stream_nonvacuous :
+  load_stream 2147483647 {| py2str_as_py3str := false; py3str_as_py2str := false |} 2
+    [2; 70; 0;0;0;7; 81;   2; 76; 81;   9; 9] = Ok ([VInt 7; VNone], [9; 9]).
+Proof. vm_compute. reflexivity. Qed.
